@@ -193,6 +193,10 @@ func (fr *Frame) applyCall(instr ssa.Instruction, cc *ssa.CallCommon, recv Val, 
 // funcValueContract: a call through a function value loaded from a struct
 // field may have an (assumed) contract attached to that field.
 func (fr *Frame) funcValueContract(v ssa.Value) *Contract {
+	// values of a named function type may carry a contract for the whole type
+	if c, ok := fr.ex.P.db.Funcs["functype:"+typeName(v.Type())]; ok {
+		return c
+	}
 	u, ok := v.(*ssa.UnOp)
 	if !ok {
 		return nil
@@ -671,6 +675,14 @@ func (fr *Frame) applyContract(c *Contract, key string, sig *types.Signature, re
 	for _, e := range c.Ensures {
 		t := env2.evalBool(e.E)
 		ex.vc.assert(Implies(st2.reach, t))
+	}
+	// the callee establishes the type invariants of the objects it returns
+	if fnc, ok := ex.P.funcs[key]; ok && ex.P.inRepo[fnc] && !c.Trusted {
+		for i, v := range vals {
+			if isPointer(v.T) && len(v.L) > 0 {
+				ex.P.assumeTypeInvAt(ex, st2, v, fnc.Signature.Results().At(i).Type(), fr)
+			}
+		}
 	}
 	// the callee re-establishes the type invariants of its pointer arguments
 	if fnc, ok := ex.P.funcs[key]; ok && ex.P.inRepo[fnc] && !c.Trusted {
